@@ -27,7 +27,7 @@ type c20Page struct {
 
 func init() {
 	register(&Prop{
-		ID: "C20",
+		ID:   "C20",
 		Rule: "metamorphic triples built on one parsed tree: D = page with subtrees (div/section/ul, with paragraphs, list items, images) marked unlikely by class / id / ARIA role from the stated vocabulary (only markers that feed nothing but the unlikely test), placed at top / middle / bottom among content paragraphs; D_del = the same tree with those subtrees removed; D_neu = the same tree with the markers renamed to neutral values (class/id -> zone, role -> region). With W = Apply(D_del).WordCount: W >= 500 requires Apply(D) = Apply(D_del), W < 500 requires Apply(D) = Apply(D_neu), on Title, Text, serialised Node, WordCount, ContentImages. The amount of remaining content is steered by feedback (the last paragraph is resized until W hits each of 497..503 exactly) and otherwise drawn from [250,750]. Non-trivial = a triple where Apply(D_del) differs from Apply(D_neu) (otherwise either answer passes); distinct = distinct (W, marker kinds, placement).",
 		Assumptions: []string{
 			"not generated: a wrapper whose only content is a marked subtree (deleting vs skipping legitimately differs in block flushing), marked subtrees containing <h1>, metadata or CJK text",
